@@ -2,7 +2,7 @@
   Families of area `numjson`:
     numhdr            C05  all 65 536 n_header words × 3 digit strings through DecodeNumeric (256 words per case)
     numeric           C05  generated numerics, short/long/special, via DecodeNumeric / DecodeType(1700) /
-                           ParseJSONB (4-byte varlena, scalar root) / ParseJSONB (1-byte varlena, after 0..3 pad bytes)
+                           ParseJSONB (scalar root) / ParseJSONB (array, after 0..3 pad bytes)
     jsonb             C06  generated documents via ParseJSONB / DecodeType(3802)
     numeric_malformed C10  corrupted numerics through the four entry points (ok / PANIC)
     jsonb_malformed   C10  corrupted documents through ParseJSONB / DecodeType(3802) (ok / PANIC)
@@ -140,8 +140,8 @@ def numericBlob (via : Nat) (p : Bytes) (padStr : Nat) : Bytes :=
   | 2 => -- scalar root holding the numeric with its 4-byte varlena header (data area is 4-aligned)
     let v := Spec.varlena4 p
     le 4 (1 + 0x40000000 + 0x10000000) ++ le 4 (Spec.mkEntry 1 true v.length) ++ v
-  | 3 => -- [string of padStr bytes, numeric with a 1-byte varlena header]
-    let v := Spec.varlena1 p
+  | 3 => -- [string of padStr bytes, numeric] : 0..3 bytes of alignment padding in front of the numeric
+    let v := Spec.varlena4 p
     let pad := Spec.padTo4 padStr
     le 4 (2 + 0x40000000) ++ le 4 (Spec.mkEntry 0 true padStr) ++ le 4 (Spec.mkEntry 1 false (pad + v.length)) ++
       List.replicate padStr 0x78 ++ zeros pad ++ v
